@@ -24,6 +24,7 @@ def toNumber (E : Env) : Val → FV
   | .num x => x
   | .str s => E.pn s
   | .recv => .nan            -- not modelled (ToPrimitive of an object)
+  | .obj _ => .nan           -- objects are converted by `Ops.conv` (ToPrimitive) first
 
 /-- integers extended with ±∞ : the range of §9.4 ToInteger -/
 inductive IntInf where
@@ -48,6 +49,7 @@ def toBoolean : Val → Bool
   | .num x => !(isNaN x || isZero x)
   | .str s => !s.isEmpty
   | .recv => true
+  | .obj _ => true
 
 /-- §9.6 ToUint32 -/
 def toUint32 (E : Env) (v : Val) : Nat :=
@@ -80,6 +82,7 @@ def sameValue (E : Env) (x y : Val) : Bool :=
   | .bool a, .bool b => a = b
   | .str a, .str b => a = b
   | .recv, .recv => true
+  | .obj a, .obj b => a = b
   | .int _, .int _ | .int _, .num _ | .num _, .int _ | .num _, .num _ =>
     let nx := toNumber E x
     let ny := toNumber E y
@@ -96,6 +99,7 @@ def strictEq (E : Env) (x y : Val) : Bool :=
   | .bool a, .bool b => a = b
   | .str a, .str b => a = b
   | .recv, .recv => true
+  | .obj a, .obj b => a = b
   | .int _, .int _ | .int _, .num _ | .num _, .int _ | .num _, .num _ =>
     cmpReal (toNumber E x) (toNumber E y) = some .eq
   | _, _ => false
@@ -301,16 +305,17 @@ def pushItems : List Val → Nat → M σ Nat
   | [], n => pure n
   | e :: items, n => do O.put n e; pushItems items (n + 1)          -- 5.b, 5.c
 
-def push (items : List Val) : M σ Ret := fun s =>
-  let n := O.len s                                                   -- 2, 3
-  (do
-    let n ← pushItems O items n                                      -- 5
-    O.putLen (.int n)                                                -- 6
-    pure (Ret.val (.int n))) s                                       -- 7
+def pushCore (n : Nat) (items : List Val) : M σ Ret := do
+  let n ← pushItems O items n                                        -- 5
+  O.putLen (.int n)                                                  -- 6
+  pure (Ret.val (.int n))                                            -- 7
+
+def push (items : List Val) : M σ Ret := do
+  let n ← readLen O                                                  -- 2, 3: lenVal = Get("length"), n = ToUint32(lenVal)
+  pushCore O n items
 
 /-- §15.4.4.6 pop -/
-def pop : M σ Ret := fun s =>
-  let len := O.len s
+def popCore (len : Nat) : M σ Ret := fun s =>
   if len = 0 then (do O.putLen (.int 0); pure (Ret.val .undef)) s                  -- 4
   else
     let indx := len - 1                                                             -- 5.a
@@ -318,8 +323,7 @@ def pop : M σ Ret := fun s =>
     (do O.del indx; O.putLen (.int indx); pure (Ret.val element)) s                 -- 5.c–e
 
 /-- §15.4.4.9 shift -/
-def shift : M σ Ret := fun s =>
-  let len := O.len s
+def shiftCore (len : Nat) : M σ Ret := fun s =>
   if len = 0 then (do O.putLen (.int 0); pure (Ret.val .undef)) s                  -- 4
   else
     let first := O.get s 0                                                          -- 5
@@ -334,8 +338,7 @@ def putFrom : List Val → Nat → M σ Unit
   | e :: items, j => do O.put j e; putFrom items (j + 1)
 
 /-- §15.4.4.13 unshift -/
-def unshift (items : List Val) : M σ Ret := fun s =>
-  let len := O.len s
+def unshiftCore (len : Nat) (items : List Val) : M σ Ret := fun s =>
   let argCount := items.length
   (do
     forDown (fun k' => moveOrDelete O k' (k' + argCount)) 0 len     -- 5–6: k = k'+1, from = k−1, to = k+argCount−1
@@ -344,8 +347,7 @@ def unshift (items : List Val) : M σ Ret := fun s =>
     pure (Ret.val (.int (len + argCount : Nat)))) s                  -- 11
 
 /-- §15.4.4.10 slice -/
-def slice (args : List Val) : M σ Ret := fun s =>
-  let len := O.len s
+def sliceCore (len : Nat) (args : List Val) : M σ Ret := fun s =>
   let relativeStart := toInteger E (argAt args 0)                    -- 5
   let k := relIndex relativeStart len                                -- 6
   let relativeEnd : IntInf := if argAt args 1 = .undef then .fin len else toInteger E (argAt args 1)   -- 7
@@ -364,9 +366,8 @@ def indexOfStart (n : IntInf) (len : Nat) : Option Nat :=
     else if (len : Int) + i < 0 then some 0 else some ((len : Int) + i).toNat    -- 8
 
 /-- §15.4.4.14 indexOf -/
-def indexOf (args : List Val) : M σ Ret := fun s =>
+def indexOfCore (len : Nat) (args : List Val) : M σ Ret := fun s =>
   let searchElement := argAt args 0
-  let len := O.len s
   if len = 0 then .ok (Ret.val (.int (-1))) s                                        -- 4
   else
     let n : IntInf := if args.length > 1 then toInteger E (argAt args 1) else .fin 0 -- 5
@@ -389,15 +390,13 @@ def reverseStep (lower upper : Nat) : M σ Unit := fun s =>
   else if lowerExists ∧ !upperExists then (do O.del lower; O.put upper lowerValue) s            -- j
   else .ok () s                                                                                 -- k
 
-def reverse : M σ Ret := fun s =>
-  let len := O.len s
+def reverseCore (len : Nat) : M σ Ret := fun s =>
   let middle := len / 2                                                              -- 4
   (do forUp (fun lower => reverseStep O lower (len - lower - 1)) 0 middle            -- 5, 6
       pure (Ret.val .recv)) s                                                        -- 7
 
 /-- §15.4.4.5 join -/
-def join (args : List Val) : M σ Ret := fun s =>
-  let len := O.len s
+def joinCore (len : Nat) (args : List Val) : M σ Ret := fun s =>
   let sep := if argAt args 0 = .undef then [44] else E.ts (argAt args 0)             -- 4, 5
   if len = 0 then .ok (Ret.val (.str [])) s                                          -- 6
   else
@@ -424,8 +423,7 @@ def concat (items : List CArg) : M σ Ret := fun s =>
   .ok (Ret.arr (ofThis ++ ofItems)) s
 
 /-- §15.4.4.12 splice -/
-def splice (args : List Val) : M σ Ret := fun s =>
-  let len := O.len s
+def spliceCore (len : Nat) (args : List Val) : M σ Ret := fun s =>
   let relativeStart := toInteger E (argAt args 0)                                    -- 5
   let actualStart := relIndex relativeStart len                                      -- 6
   let actualDeleteCount : Nat := clamp0 (toInteger E (argAt args 1)) (len - actualStart)   -- 7
@@ -454,9 +452,8 @@ def lastIndexOfCount (n : IntInf) (len : Nat) : Nat :=
     else ((len : Int) + i + 1).toNat
 
 /-- §15.4.4.15 lastIndexOf -/
-def lastIndexOf (args : List Val) : M σ Ret := fun s =>
+def lastIndexOfCore (len : Nat) (args : List Val) : M σ Ret := fun s =>
   let searchElement := argAt args 0
-  let len := O.len s
   if len = 0 then .ok (Ret.val (.int (-1))) s                                        -- 4
   else
     let n : IntInf := if args.length > 1 then toInteger E (argAt args 1) else .fin ((len : Int) - 1)   -- 5
@@ -464,8 +461,7 @@ def lastIndexOf (args : List Val) : M σ Ret := fun s =>
     .ok (indexRet (searchDown (fun k => O.has s k && strictEq E searchElement (O.get s k)) count)) s   -- 8, 9
 
 /-- §15.4.4.16 every -/
-def every (callable : Bool) : M σ Ret := fun s =>
-  let len := O.len s
+def everyCore (len : Nat) (callable : Bool) : M σ Ret := fun s =>
   if !callable then .err .type s else                                                -- 4
   (do
     let r ← findUp (fun k => fun s' =>
@@ -478,8 +474,7 @@ def every (callable : Bool) : M σ Ret := fun s =>
     | none => pure (Ret.val (.bool true))) s                                         -- 8
 
 /-- §15.4.4.17 some -/
-def some_ (callable : Bool) : M σ Ret := fun s =>
-  let len := O.len s
+def someCore (len : Nat) (callable : Bool) : M σ Ret := fun s =>
   if !callable then .err .type s else
   (do
     let r ← findUp (fun k => fun s' =>
@@ -492,8 +487,7 @@ def some_ (callable : Bool) : M σ Ret := fun s =>
     | none => pure (Ret.val (.bool false))) s
 
 /-- §15.4.4.18 forEach -/
-def forEach (callable : Bool) : M σ Ret := fun s =>
-  let len := O.len s
+def forEachCore (len : Nat) (callable : Bool) : M σ Ret := fun s =>
   if !callable then .err .type s else
   (do
     forUp (fun k => fun s' =>
@@ -502,8 +496,7 @@ def forEach (callable : Bool) : M σ Ret := fun s =>
     pure (Ret.val .undef)) s
 
 /-- §15.4.4.19 map -/
-def map (callable : Bool) : M σ Ret := fun s =>
-  let len := O.len s
+def mapCore (len : Nat) (callable : Bool) : M σ Ret := fun s =>
   if !callable then .err .type s else
   (do
     let a ← foldUp (fun k (a : List (Option Val)) => fun s' =>                       -- 6: A = new Array(len)
@@ -513,8 +506,7 @@ def map (callable : Bool) : M σ Ret := fun s =>
     pure (Ret.arr a)) s
 
 /-- §15.4.4.20 filter -/
-def filter (callable : Bool) : M σ Ret := fun s =>
-  let len := O.len s
+def filterCore (len : Nat) (callable : Bool) : M σ Ret := fun s =>
   if !callable then .err .type s else
   (do
     let a ← foldUp (fun k (a : List (Option Val)) => fun s' =>
@@ -526,8 +518,7 @@ def filter (callable : Bool) : M σ Ret := fun s =>
     pure (Ret.arr a)) s
 
 /-- §15.4.4.21 reduce; `args` = the arguments after callbackfn -/
-def reduce (callable : Bool) (args : List Val) : M σ Ret := fun s =>
-  let len := O.len s
+def reduceCore (len : Nat) (callable : Bool) (args : List Val) : M σ Ret := fun s =>
   if !callable then .err .type s                                                     -- 4
   else if len = 0 ∧ args.length = 0 then .err .type s                                -- 5
   else
@@ -546,8 +537,7 @@ def reduce (callable : Bool) (args : List Val) : M σ Ret := fun s =>
         pure (Ret.val acc)) s                                                        -- 10
 
 /-- §15.4.4.22 reduceRight -/
-def reduceRight (callable : Bool) (args : List Val) : M σ Ret := fun s =>
-  let len := O.len s
+def reduceRightCore (len : Nat) (callable : Bool) (args : List Val) : M σ Ret := fun s =>
   if !callable then .err .type s
   else if len = 0 ∧ args.length = 0 then .err .type s
   else
@@ -574,9 +564,9 @@ def sortCompareVals (cmp : SortCmp) (x y : Val) : Int :=
   else match cmp with
     | some f => f x y                                         -- 13
     | none =>
-      let xs := E.ts x                                        -- 14
-      let ys := E.ts y                                        -- 15
-      if bytesLt xs ys then -1 else if bytesLt ys xs then 1 else 0   -- 16–18
+      let xs := OttoVerif.Str.unitsOfBytes (E.ts x)          -- 14: ToString(x), a sequence of UTF-16 code units
+      let ys := OttoVerif.Str.unitsOfBytes (E.ts y)          -- 15
+      if bytesLt xs ys then -1 else if bytesLt ys xs then 1 else 0   -- 16–18: xString < yString (§11.8.5: by code unit)
 
 def insertBy (le : Val → Val → Bool) (x : Val) : List Val → List Val
   | [] => [x]
@@ -587,8 +577,7 @@ def insertBy (le : Val → Val → Bool) (x : Val) : List Val → List Val
     absent positions.  (Where the standard leaves the result implementation-defined — inherited index properties
     under holes, non-extensible receivers, inconsistent comparefn — this function is not the specification;
     the generators stay outside those cases.) -/
-def sort (callable : Bool) (cmp : SortCmp) : M σ Ret := fun s =>
-  let len := O.len s
+def sortCore (len : Nat) (callable : Bool) (cmp : SortCmp) : M σ Ret := fun s =>
   if !callable then .err .type s else
   let present : List Val := (List.range len).filterMap fun k => if O.has s k then some (O.get s k) else none
   let sorted : List Val := present.foldr (insertBy fun x y => decide (sortCompareVals E cmp x y ≤ 0)) []
@@ -599,11 +588,66 @@ def sort (callable : Bool) (cmp : SortCmp) : M σ Ret := fun s =>
       | none => O.del k) 0 len
     pure (Ret.val .recv)) s
 
+/-! ### the algorithms with their first steps: `len` is read (steps 2–3) before anything else, and the arguments
+    are converted (ToInteger / ToString run an object's valueOf / toString) in the order the steps name them -/
+
+def pop : M σ Ret := do let len ← readLen O; popCore O len
+def shift : M σ Ret := do let len ← readLen O; shiftCore O len
+def unshift (items : List Val) : M σ Ret := do let len ← readLen O; unshiftCore O len items
+def reverse : M σ Ret := do let len ← readLen O; reverseCore O len
+
+/-- §15.4.4.10: 3 len; 5 ToInteger(start); 7 ToInteger(end) unless end is undefined -/
+def slice (args : List Val) : M σ Ret := do
+  let len ← readLen O
+  let relativeStart ← O.conv (argAt args 0)
+  let endArg := argAt args 1
+  let relativeEnd ← if endArg = .undef then pure Val.undef else (do let p ← O.conv endArg; pure (numPrim p))
+  sliceCore O E len [relativeStart, relativeEnd]
+
+/-- §15.4.4.12: 3–4 len; 5 ToInteger(start); 7 ToInteger(deleteCount) -/
+def splice (args : List Val) : M σ Ret := do
+  let len ← readLen O
+  let start ← O.conv (argAt args 0)
+  let deleteCount ← O.conv (argAt args 1)
+  spliceCore O E len (start :: deleteCount :: args.drop 2)
+
+/-- §15.4.4.14: 2–3 len; 4 return −1 if len is 0; 5 ToInteger(fromIndex) if it was passed -/
+def indexOf (args : List Val) : M σ Ret := do
+  let len ← readLen O
+  let pargs ← if len = 0 then pure args else convAt O args 1
+  indexOfCore O E len pargs
+
+/-- §15.4.4.15: 2–3 len; 4 return −1 if len is 0; 5 ToInteger(fromIndex) if it was passed -/
+def lastIndexOf (args : List Val) : M σ Ret := do
+  let len ← readLen O
+  let pargs ← if len = 0 then pure args else convAt O args 1
+  lastIndexOfCore O E len pargs
+
+/-- §15.4.4.5: 2–3 len; 4–5 ToString(separator) unless undefined -/
+def join (args : List Val) : M σ Ret := do
+  let len ← readLen O
+  let pargs ← if argAt args 0 = .undef then pure args else (do
+      let p ← O.conv (argAt args 0)
+      pure (args.set 0 (.str (E.ts p))))            -- 5: sep = ToString(separator)
+  joinCore O E len pargs
+
+/-- §15.4.4.16–22: 2–3 len, then 4 "if IsCallable(callbackfn) is false, throw a TypeError" -/
+def every (callable : Bool) : M σ Ret := do let len ← readLen O; everyCore O len callable
+def some_ (callable : Bool) : M σ Ret := do let len ← readLen O; someCore O len callable
+def forEach (callable : Bool) : M σ Ret := do let len ← readLen O; forEachCore O len callable
+def map (callable : Bool) : M σ Ret := do let len ← readLen O; mapCore O len callable
+def filter (callable : Bool) : M σ Ret := do let len ← readLen O; filterCore O len callable
+def reduce (callable : Bool) (args : List Val) : M σ Ret := do let len ← readLen O; reduceCore O len callable args
+def reduceRight (callable : Bool) (args : List Val) : M σ Ret := do let len ← readLen O; reduceRightCore O len callable args
+def sort (callable : Bool) (cmp : SortCmp) : M σ Ret := do let len ← readLen O; sortCore O E len callable cmp
+
 end Methods
 
 /-- the abstract operations of §15.4.4 on an object of the store -/
 def specOps (E : Env) : Ops St where
-  len := fun s => toUint32 E (get s.o .length)
+  len := fun s => match s.lenPrim with
+    | some p => toUint32 E p
+    | none => toUint32 E (get s.o .length)
   has := fun s k => hasProperty s.o (.idx k)
   get := fun s k => get s.o (.idx k)
   put := fun k v => liftObj (put E (.idx k) v true)
@@ -611,5 +655,8 @@ def specOps (E : Env) : Ops St where
   putLen := fun v => liftObj (put E .length v true)
   call := scriptedCall
   isArr := fun s => s.o.isArr
+  lenRead := scriptedLenRead (fun o => get o .length)
+    (scriptedConv (put E) delete (fun o => toUint32 E (get o .length)))
+  conv := scriptedConv (put E) delete (fun o => toUint32 E (get o .length))
 
 end OttoVerif.C08.Spec
